@@ -107,6 +107,8 @@ type World struct {
 	OnSent      []func(m *Msg)
 	OnDelivered []func(ev *Event, ok bool, err *tss.Error)
 	AfterStep   []func(ev *Event)
+	BeforeExec  []func(ev *Event)
+	OnReturn    []func(ev *Event, ok bool, err *tss.Error) // right after the party call returned, before its output is routed
 	DupAll      bool // duplicate-everything strategy: re-queue one copy of every delivery
 	MaxSteps    int
 	Panics      []string
@@ -264,6 +266,9 @@ func (w *World) Exec(i int) *Event {
 	ev := w.Pending[i]
 	w.Pending = append(w.Pending[:i], w.Pending[i+1:]...)
 	rec := StepRecord{Step: len(w.Steps), Ev: ev.String()}
+	for _, f := range w.BeforeExec {
+		f(ev)
+	}
 	switch ev.Kind {
 	case EvStart:
 		ev.Node.Started = true
@@ -271,6 +276,9 @@ func (w *World) Exec(i int) *Event {
 		err := ev.Node.Party.Start()
 		ev.Node.StartRet = true
 		ev.Node.StartErr = err
+		for _, f := range w.OnReturn {
+			f(ev, err == nil, err)
+		}
 		rec.OK = err == nil
 		if err != nil {
 			rec.Err = err.Error()
@@ -284,6 +292,9 @@ func (w *World) Exec(i int) *Event {
 		ev.Node.Inbox = append(ev.Node.Inbox, ev.Msg.Key()+tagSuffix(ev.Tag))
 		ok, err := ev.Node.Party.UpdateFromBytes(ev.Wire, ev.FromPID, ev.Bcast)
 		rec.OK = ok
+		for _, f := range w.OnReturn {
+			f(ev, ok, err)
+		}
 		if err != nil {
 			rec.Err = err.Error()
 			rec.Culp = culpritNames(err)
